@@ -473,7 +473,7 @@ PRED = ["perp_lines2", "perp_lines3", "perp_planes", "parallel_lines2", "paralle
 def pred_case(draw, tier="quick"):
     return {"cfg": draw(st.sampled_from(PRED)), "truth": draw(st.booleans()), "v": [draw(C.ints(6)) for _ in range(16)], "s": [draw(C.scale()) for _ in range(2)],
             "k": draw(st.sampled_from([1, 2, -1, 3])), "coll": draw(st.sampled_from([0, 0, 0, 2, 2, 64, 70, "8x8"])), "pyth": [draw(st.integers(0, 5)) for _ in range(4)],
-            "far": draw(st.sampled_from([0, 0, 14, 17]))}
+            "far": draw(st.sampled_from([0, 0, 14, 17])), "farp": draw(st.sampled_from([0, 0, 1000, 3000, 6000]))}
 
 
 UNIT = [(3, 4, 5), (4, 3, 5), (-3, 4, 5), (5, 12, 13), (-5, -12, 13), (0, 1, 1), (1, 0, 1), (8, -15, 17), (-4, -3, 5), (12, -5, 13)]
@@ -621,6 +621,21 @@ def run_pred(c):
         if cfg == "perp_planes":
             n2 = perp * c["k"] if truth else perp * c["k"] + n1
             e1, e2 = Plane(np.append(n1, v[6]) * s[0]), Plane(np.append(n2, v[7]) * s[1])
+            if c.get("farp") and not truth:
+                # two planes that are clearly not perpendicular (the angle is at most 88.3 degrees), both spanned by points some thousand units
+                # away from the origin: the coefficients of such planes are dominated by the offset, the normals are small
+                ctr = np.array([1.0, -0.5, 0.25]) * c["farp"]
+
+                def through(n, off):
+                    a, b, cc = n
+                    cand = [x for x in (np.array([b, -a, 0.0]), np.array([0.0, cc, -b]), np.array([cc, 0.0, -a])) if np.any(x)]
+                    p0 = ctr + np.array([off, 0.0, -off])
+                    b1 = cand[0]
+                    b2 = next(x for x in cand[1:] if np.any(np.cross(b1, x)))
+                    return Plane(P(p0), P(p0 + b1), P(p0 + b2))
+
+                e1, e2 = through(n1, float(v[6])), through(n2, float(v[7]))
+                site += ":planes-far-from-the-origin"
             r, f = call(site, is_perpendicular, two(e1), e2)
             expect(r, f)
         elif cfg == "parallel_planes":
@@ -951,9 +966,9 @@ LAWS = [
     Law("predicates_mixed_collections", lambda tier: mixed_case(tier), run_mixed, lambda c: len({p["mode"] for p in c["pos"]}) > 1,
         lambda c: [c["what"]] + sorted({p["mode"] for p in c["pos"]}), {"quick": 800, "thorough": 15000},
         "is_collinear/is_concurrent (4 arguments) and is_coplanar (5 arguments) on collections whose positions have different truth values", shard=300),
-    Law("predicates", lambda tier: pred_case(tier), run_pred, lambda c: True, lambda c: [c["cfg"], "true" if c["truth"] else "false"] + (["far-from-origin"] if c.get("far") and not c["truth"] and c["cfg"].startswith("parallel") else []) + ([f"{c['cfg']}:collection>=64"] if c["coll"] in (64, 70, "8x8") else []), {"quick": 3500, "thorough": 50000},
+    Law("predicates", lambda tier: pred_case(tier), run_pred, lambda c: True, lambda c: [c["cfg"], "true" if c["truth"] else "false"] + (["far-from-origin"] if c.get("far") and not c["truth"] and c["cfg"].startswith("parallel") else []) + (["perp_planes:false:far-from-origin"] if c.get("farp") and not c["truth"] and c["cfg"] == "perp_planes" else []) + ([f"{c['cfg']}:collection>=64"] if c["coll"] in (64, 70, "8x8") else []), {"quick": 3500, "thorough": 50000},
         "is_perpendicular / is_parallel / is_cocircular / is_collinear / is_coplanar / is_concurrent exact truth values; angle_bisectors", shard=400,
-        mandatory=("perp_lines2:collection>=64", "perp_lines3:collection>=64", "cocircular:collection>=64", "bisectors2:collection>=64", "cocircular3", "cocircular1")),
+        mandatory=("perp_lines2:collection>=64", "perp_lines3:collection>=64", "cocircular:collection>=64", "bisectors2:collection>=64", "cocircular3", "cocircular1", "perp_planes:false:far-from-origin")),
 ]
 
 
